@@ -76,6 +76,20 @@ def main():
         w4.terminate(timeout=1, force=True)
     except Exception:
         pass
+    # 2c. force=True leaves a process child dead whatever the target does, as long as it does not block SIGTERM: a target that swallows every Exception
+    #     around one long blocking call (the graceful request stays pending while it sleeps)
+    w5 = ProcessWorker(T.swallow_in_long_sleep)
+    time.sleep(0.8)
+    r = timed(lambda: w5.terminate(timeout=0.5, force=True), 10)
+    time.sleep(0.2)
+    obs['force_terminate_swallowing_sleeper'] = dict(r, alive_after=w5.is_alive())
+    if r['hung'] or r.get('ret') is not True or w5.is_alive():
+        viol.append(f'terminate(timeout=0.5, force=True) on a process child that swallows exceptions inside one long sleep (SIGTERM not blocked): {r}, '
+                    f'child alive afterwards: {w5.is_alive()}')
+    try:
+        os.kill(w5.pid, signal.SIGKILL)
+    except Exception:
+        pass
     # 3. remote: wait(0) on a running worker returns at once with False
     server = spawn_server(('127.0.0.1', 0))
     try:
